@@ -127,7 +127,19 @@ func (d *deriver) strct(s *gen.StructT, top bool) *gen.StructT {
 		if t.T == tref.STRUCT && req == gen.ReqRequired {
 			req = gen.ReqOptional
 		}
-		n.Fields = append(n.Fields, &gen.FieldT{ID: id, Name: fmt.Sprintf("add%d_%d", d.n, id), T: t, Req: req})
+		nf := &gen.FieldT{ID: id, Name: fmt.Sprintf("add%d_%d", d.n, id), T: t, Req: req}
+		// a declared IDL default is not what cutting fills in: absent default-requiredness fields are ZERO-filled
+		switch {
+		case t.T == tref.I32 && d.r.Bool():
+			nf.Default = tref.Int32(int32(7 + d.r.Intn(1000)))
+		case t.T == tref.STRING && !t.Bin && d.r.Bool():
+			nf.Default = tref.Str(fmt.Sprintf("dflt%d", d.r.Intn(100)))
+		case t.T == tref.BOOL && d.r.Bool():
+			nf.Default = tref.Bool(true)
+		case t.T == tref.I64 && d.r.Bool():
+			nf.Default = tref.Int64(int64(1 + d.r.Intn(100000)))
+		}
+		n.Fields = append(n.Fields, nf)
 	}
 	if len(n.Fields) == 0 {
 		n.Fields = append(n.Fields, &gen.FieldT{ID: 299, Name: "only", T: &gen.Type{T: tref.I32}, Req: gen.ReqOptional})
@@ -442,7 +454,12 @@ func runC11(c *h.Ctx) {
 		}
 		idl := sc.IDL()
 		cs.Info("idl", idl)
-		_, svc, err := ParseRoot(sc, thrift.NewDefaultOptions())
+		popts := thrift.NewDefaultOptions()
+		popts.UseDefaultValue = cs.R.Bool()
+		if popts.UseDefaultValue {
+			cs.Cover("cut_target_parsed_with_default_values")
+		}
+		_, svc, err := ParseRoot(sc, popts)
 		if err != nil {
 			cs.Viol("cut:parse-idl", "err", err)
 			return
